@@ -240,7 +240,14 @@ class GymStateWrapper(gym.Wrapper):
             ValueError('GymEnvironment does not have a state space')
 
         super().__init__(env)
-        self.observation_space = env.state_space
+
+    @property
+    def observation_space(self) -> gym.spaces.Space:
+        """the state space currently advertised by the wrapped environment
+
+        (follows :py:meth:`GymEnvironment.set_state_representation`)
+        """
+        return self.env.state_space
 
     @property
     def observation(self) -> Dict[str, np.ndarray]:
